@@ -12,6 +12,15 @@
  * c03_ubound_m1      : emit_for_begin's do-loop upper bound is `ubound - 1`
  * c03_switch_exits   : emit_inst_SwitchPhase ends with `goto 999`
  * c03_next_first     : emit_run_step assigns the default successor before calling the phase
+ * c03_guard_outside  : dag_ast.py loop_to_ast_node puts the conditional of a guarded looped
+                        assignment OUTSIDE its loop nest (fixes/C01_guard_outside_loops.patch;
+                        false: ForLoop(..., IfThenElse(guard, stmt, Null)), the bounds are evaluated
+                        and the loops run although the guard is false)
+ * c03_prec_*         : the precedence FortranExpressionMapper's map_logical_or / map_logical_and /
+                        map_logical_not hand to their operands (`_child`) and claim for themselves
+                        (`_own`): the names are read off the three methods (exact shapes), the
+                        numbers off pymbolic/mapper/stringifier.py (third party, pinned in /venv),
+                        where parenthesize_if_needed must still be `if enclosing_prec > my_prec`
  * c03_ret_prefixes   : the three slots written by emit_inst_YieldState, in order
  fail-closed only: emit_inst_FailStep ends with goto 999; emit_return emits goto 999;
  lower_function emits label 999 right after lower_ast; process_ast's pass order.
@@ -47,6 +56,109 @@ CALL_PHASE = ("self.emit('call dagrt_phase_func_{phase_name}({args})'.format(pha
               "args=', '.join(args)))")
 SWITCH_SET = "self.emit('dagrt_state%dagrt_next_phase = ' + self.phase_name_to_phase_sym(inst.next_phase))"
 GOTO = "self.emit('goto 999')"
+
+
+# dag_ast.py, the two recognised shapes of the lowering of one statement
+COND_TO_AST = ["if statement.condition is not True:\n    new_statement = statement.copy(condition=True)\n"
+               "    return IfThenElse(statement.condition, statement_to_ast(new_statement), NullASTNode())\n"
+               "else:\n    return statement_to_ast(statement)"]
+LOOP_OLD = ["if isinstance(statement, Assign) and statement.loops:\n"
+            "    loop_var_name, lower, upper = statement.loops[0]\n"
+            "    new_statement = statement.copy(loops=statement.loops[1:])\n"
+            "    return ForLoop(loop_var_name=loop_var_name, lbound=lower, ubound=upper, "
+            "body=loop_to_ast_node(new_statement))\n"
+            "else:\n    return conditional_to_ast(statement)"]
+LOOPS_NEW = ["if isinstance(statement, Assign) and statement.loops:\n"
+             "    loop_var_name, lower, upper = statement.loops[0]\n"
+             "    new_statement = statement.copy(loops=statement.loops[1:])\n"
+             "    return ForLoop(loop_var_name=loop_var_name, lbound=lower, ubound=upper, "
+             "body=loops_to_ast(new_statement))\n"
+             "else:\n    return statement_to_ast(statement)"]
+LOOP_NEW = ["if statement.condition is not True:\n    new_statement = statement.copy(condition=True)\n"
+            "    return IfThenElse(statement.condition, loops_to_ast(new_statement), NullASTNode())\n"
+            "else:\n    return loops_to_ast(statement)"]
+
+
+def guard_outside(repo):
+    tree = _parse(repo, "dagrt/codegen/dag_ast.py")
+    defs = {n.name: n for n in tree.body if isinstance(n, ast.FunctionDef)}
+    if "loop_to_ast_node" not in defs:
+        raise ShapeError("dag_ast.py: loop_to_ast_node not found")
+    body = _body(defs["loop_to_ast_node"])
+    if body == LOOP_OLD and "conditional_to_ast" in defs and _body(defs["conditional_to_ast"]) == COND_TO_AST \
+            and "loops_to_ast" not in defs:
+        res = False
+    elif body == LOOP_NEW and "loops_to_ast" in defs and _body(defs["loops_to_ast"]) == LOOPS_NEW \
+            and "conditional_to_ast" not in defs:
+        res = True
+    else:
+        raise ShapeError("dag_ast.py loop_to_ast_node / conditional_to_ast / loops_to_ast: unrecognised shape %r" % body)
+    if _body(defs["statement_to_ast"]) != ["return StatementWrapper(statement)"]:
+        raise ShapeError("dag_ast.py statement_to_ast: unrecognised body")
+    # the only user is the main loop of create_ast_from_phase
+    cap = defs.get("create_ast_from_phase")
+    if cap is None or "main_block.append(loop_to_ast_node(statement))" not in [_src(n) for n in ast.walk(cap)
+                                                                                 if isinstance(n, ast.Expr)]:
+        raise ShapeError("dag_ast.py create_ast_from_phase: main_block.append(loop_to_ast_node(statement)) not found")
+    return res
+
+
+def logical_precedences(repo):
+    """(or_child, or_own, and_child, and_own, not_child, not_own) as numbers"""
+    import os
+    ex = _parse(repo, "dagrt/codegen/expressions.py")
+    fm = _find_class(ex, "FortranExpressionMapper")
+    names = {}
+    for meth, sep in (("map_logical_or", " .or. "), ("map_logical_and", " .and. ")):
+        b = _body(_find_def(fm, meth))
+        ok = False
+        if len(b) == 2 and b[0].startswith("from pymbolic.mapper.stringifier import PREC_"):
+            ret = _find_def(fm, meth).body[-1]
+            if isinstance(ret, ast.Return) and isinstance(ret.value, ast.Call) \
+                    and _src(ret.value.func) == "self.parenthesize_if_needed" and len(ret.value.args) == 3:
+                j, enc, own = ret.value.args
+                if isinstance(j, ast.Call) and _src(j.func) == "self.join_rec" and len(j.args) == 3 \
+                        and isinstance(j.args[0], ast.Constant) and j.args[0].value == sep \
+                        and _src(j.args[1]) == "expr.children" and isinstance(j.args[2], ast.Name) \
+                        and _src(enc) == "enclosing_prec" and isinstance(own, ast.Name):
+                    names[meth] = (j.args[2].id, own.id)
+                    ok = True
+        if not ok:
+            raise ShapeError("expressions.py FortranExpressionMapper.%s: unrecognised body %r" % (meth, b))
+    b = _body(_find_def(fm, "map_logical_not"))
+    ret = _find_def(fm, "map_logical_not").body[-1]
+    ok = False
+    if len(b) == 2 and isinstance(ret, ast.Return) and isinstance(ret.value, ast.Call) \
+            and _src(ret.value.func) == "self.parenthesize_if_needed" and len(ret.value.args) == 3:
+        t, enc, own = ret.value.args
+        if isinstance(t, ast.BinOp) and isinstance(t.op, ast.Add) and isinstance(t.left, ast.Constant) \
+                and t.left.value == ".not. " and isinstance(t.right, ast.Call) and _src(t.right.func) == "self.rec" \
+                and len(t.right.args) == 2 and _src(t.right.args[0]) == "expr.child" \
+                and isinstance(t.right.args[1], ast.Name) and _src(enc) == "enclosing_prec" and isinstance(own, ast.Name):
+            names["map_logical_not"] = (t.right.args[1].id, own.id)
+            ok = True
+    if not ok:
+        raise ShapeError("expressions.py FortranExpressionMapper.map_logical_not: unrecognised body %r" % b)
+    # the numbers and the parenthesisation rule, from the pinned pymbolic
+    import pymbolic.mapper.stringifier as st
+    path = st.__file__
+    tree = ast.parse(open(path).read(), filename=path)
+    consts = {}
+    for n in tree.body:
+        if isinstance(n, ast.Assign) and len(n.targets) == 1 and isinstance(n.targets[0], ast.Name) \
+                and n.targets[0].id.startswith("PREC_") and isinstance(n.value, ast.Constant):
+            consts[n.targets[0].id] = n.value.value
+    sm = _find_class(tree, "StringifyMapper")
+    pin = _body(_find_def(sm, "parenthesize_if_needed"))
+    if pin != ["if enclosing_prec > my_prec:\n    return f'({s})'\nelse:\n    return s"]:
+        raise ShapeError("pymbolic StringifyMapper.parenthesize_if_needed: unrecognised body %r" % pin)
+    out = []
+    for meth in ("map_logical_or", "map_logical_and", "map_logical_not"):
+        for nm in names[meth]:
+            if nm not in consts or not isinstance(consts[nm], int) or consts[nm] < 0:
+                raise ShapeError("precedence constant %s not found in pymbolic" % nm)
+            out.append(consts[nm])
+    return out, names
 
 
 def facts(repo):
@@ -157,7 +269,7 @@ def facts(repo):
         ne = True
     else:
         raise ShapeError("expressions.py FortranExpressionMapper.map_comparison: unrecognised body %r" % _body(mc[0]))
-    return dict(ne=ne, cond=cond, ordered=ordered, m1=m1, sw=sw, nf=nf, slots=slots, passes=passes)
+    return dict(ne=ne, cond=cond, ordered=ordered, go=guard_outside(repo), prec=logical_precedences(repo), m1=m1, sw=sw, nf=nf, slots=slots, passes=passes)
 
 
 def generate(repo):
@@ -172,6 +284,13 @@ def generate(repo):
     out.append("Definition c03_ubound_m1 : bool := %s." % coq_bool(f["m1"]))
     out.append("Definition c03_switch_exits : bool := %s." % coq_bool(f["sw"]))
     out.append("Definition c03_next_first : bool := %s." % coq_bool(f["nf"]))
+    out.append("(* dagrt/codegen/dag_ast.py loop_to_ast_node *)")
+    out.append("Definition c03_guard_outside : bool := %s." % coq_bool(f["go"]))
+    nums, names = f["prec"]
+    out.append("(* FortranExpressionMapper map_logical_or %r, map_logical_and %r, map_logical_not %r (child, own) *)"
+               % (names["map_logical_or"], names["map_logical_and"], names["map_logical_not"]))
+    for nm, z in zip(("or_child", "or_own", "and_child", "and_own", "not_child", "not_own"), nums):
+        out.append("Definition c03_prec_%s : nat := %d." % (nm, z))
     out.append("Definition c03_ret_prefixes : list string := %s." % coq_string_list(f["slots"]))
     out.append("Definition c03_passes : list string := %s." % coq_string_list(f["passes"]))
     return "\n".join(out) + "\n"
